@@ -165,6 +165,7 @@ def ddmin(items, test, budget):
 
 
 def minimise(engine_name, plan, violation, scratch, max_candidates=1500, wall_s=240):
+    engine_name = plan.get("engine", engine_name)
     engine = load_engine(engine_name)
     prop, sig = violation["prop"], violation["sig"]
     srv = Server(engine_name, scratch)
